@@ -2,7 +2,7 @@
 canonicalisation and generators.  Shapes / calls are S-expression trees, see lean/TTV/Drv/Res.lean:
 
 shape : [sink f] f in py26/py27/twisted/ext | [tt B] | [text B] | [tbt] | [etod s] | [deco s] | [tagger new gone s]
-        | [ffbox late B s] (s a deco / tagger: the same object with the instance attribute failfast = B, assigned at once (late false) or after the whole graph is built (late true))
+        | [fsink late B f] (f in py26/twisted: a recording result of that flavour with the instance attribute failfast = B, assigned at once (late false) or after the whole graph is built (late true))
         | [tfr [etod s]] | [multi [etod s] ...] | [e2s [etod s]]
         (the etod below tfr/multi/e2s is the ExtendedToOriginalDecorator those classes create themselves)
 call  : [startTestRun] [stopTestRun] [startTest t] [stopTest t] [add kind t arg] [tags new gone] [time tv] [stop] [done]
@@ -419,7 +419,7 @@ class CallbackFault(Exception):
 
 def linear_tbt(s):
     """a linear stack of ExtendedToOriginalDecorator / TestResultDecorator / Tagger layers over a TestByTestResult"""
-    return s[0] == 'tbt' or (s[0] in ('etod', 'deco', 'tagger', 'ffbox') and linear_tbt(children(s)[0]))
+    return s[0] == 'tbt' or (s[0] in ('etod', 'deco', 'tagger') and linear_tbt(children(s)[0]))
 
 
 class Graph:
@@ -468,13 +468,14 @@ class Graph:
             o = real.TestResultDecorator(self.build(s[1], path + (0,)))
         elif kind == 'tagger':
             o = real.Tagger(self.build(s[3], path + (0,)), {tagname(i) for i in s[1]}, {tagname(i) for i in s[2]})
-        elif kind == 'ffbox':
-            assert s[3][0] in ('deco', 'tagger'), s
-            o = self.build(s[3], path + (0,))
+        elif kind == 'fsink':
+            o = {'py26': k['Py26'], 'twisted': k['Twisted']}[s[3]]()
             if s[1]:
                 self.pending.append((o, s[2]))
             else:
                 o.failfast = s[2]
+            self.leaves.append(o)
+            self.points.append(o)
         elif kind == 'tfr':
             o = real.ThreadsafeForwardingResult(self.target(s[1], path + (0,)), threading.Semaphore(1))
         elif kind == 'multi':
@@ -530,7 +531,7 @@ class Graph:
 # ----- static facts about shapes (mirror of `caps` in TTV/Model/Result.lean, used to keep generated calls in the domain)
 def has_progress(s):
     k = s[0]
-    return k in ('etod', 'deco', 'tagger', 'tfr', 'ffbox') or (k == 'sink' and s[1] == 'ext')
+    return k in ('etod', 'deco', 'tagger', 'tfr') or (k == 'sink' and s[1] == 'ext')
 
 
 def can_progress(s):
@@ -542,7 +543,7 @@ def can_progress(s):
         return (not has_progress(s[1])) or can_progress(s[1])
     if k == 'deco':
         return can_progress(s[1])
-    if k in ('tagger', 'ffbox'):
+    if k == 'tagger':
         return can_progress(s[3])
     return k == 'tfr'
 
@@ -551,12 +552,12 @@ def can_done(s):
     return s[0] in ('tt', 'text', 'tbt', 'etod', 'tfr', 'multi')
 
 
-NODE_KINDS = ('sink', 'tt', 'text', 'tbt', 'etod', 'deco', 'tagger', 'tfr', 'multi', 'e2s', 'ffbox')
+NODE_KINDS = ('sink', 'tt', 'text', 'tbt', 'etod', 'deco', 'tagger', 'tfr', 'multi', 'e2s', 'fsink')
 
 
 def kinds_in(s, acc=None):
     acc = [] if acc is None else acc
-    acc.append(s[0] if s[0] != 'sink' else 'sink:' + s[1])
+    acc.append('sink:' + s[1] if s[0] == 'sink' else 'fsink:' + s[3] if s[0] == 'fsink' else s[0])
     for c in s[1:]:
         if isinstance(c, list) and c and isinstance(c[0], str) and c[0] in NODE_KINDS:
             kinds_in(c, acc)
@@ -572,7 +573,7 @@ def children(s):
     k = s[0]
     if k in ('etod', 'deco', 'tfr', 'e2s'):
         return [s[1]]
-    if k in ('tagger', 'ffbox'):
+    if k == 'tagger':
         return [s[3]]
     if k == 'multi':
         return list(s[1:])
@@ -589,8 +590,8 @@ def wf_shape(s, under_etod=False):
         return wf_shape(s[1], True)
     if k in ('deco', 'tagger'):
         return wf_shape(children(s)[0])
-    if k == 'ffbox':
-        return s[3][0] in ('deco', 'tagger') and wf_shape(s[3])
+    if k == 'fsink':
+        return under_etod and s[3] in ('py26', 'twisted')
     if k in ('tfr', 'e2s'):
         return s[1][0] == 'etod' and wf_shape(s[1])
     if k == 'multi':
@@ -647,19 +648,17 @@ def gen_tags_call(rng, pool=4):
 OLD = ['py26', 'py27', 'twisted']
 
 
-def gen_shape(rng, d, leaves=('old', 'ext', 'tt', 'tbt'), inner=('etod', 'deco', 'tagger', 'tfr', 'multi'), ff=False, ffbox=0.0):
-    """a capable (extended-protocol) result graph of depth <= d+1; ffbox = probability that a decorator layer gets a failfast attribute"""
-    s = gen_shape1(rng, d, leaves, inner, ff, ffbox)
-    if ffbox and s[0] in ('deco', 'tagger') and rng.random() < ffbox:
-        return ['ffbox', rng.random() < 0.5, rng.random() < 0.65, s]
-    return s
-
-
-def gen_shape1(rng, d, leaves, inner, ff, ffbox):
+def gen_shape(rng, d, leaves=('old', 'ext', 'tt', 'tbt'), inner=('etod', 'deco', 'tagger', 'tfr', 'multi'), ff=False, fattr=0.0):
+    """a capable (extended-protocol) result graph of depth <= d+1; fattr = probability that a 2.6 / Twisted style result gets a failfast attribute"""
+    def old():
+        f = rng.choice(OLD)
+        if fattr and f in ('py26', 'twisted') and rng.random() < fattr:
+            return ['etod', ['fsink', rng.random() < 0.5, rng.random() < 0.65, f]]
+        return ['etod', ['sink', f]]
     if d <= 0 or rng.random() < 0.25:
         l = rng.choice(leaves)
         if l == 'old':
-            return ['etod', ['sink', rng.choice(OLD)]]
+            return old()
         if l == 'ext':
             return ['sink', 'ext']
         if l in ('tt', 'text'):
@@ -669,15 +668,15 @@ def gen_shape1(rng, d, leaves, inner, ff, ffbox):
 
     def target():
         if 'old' in leaves and rng.random() < 0.3:
-            return ['etod', ['sink', rng.choice(OLD)]]
-        return ['etod', gen_shape(rng, d - 1, leaves, inner, ff, ffbox)]
+            return old()
+        return ['etod', gen_shape(rng, d - 1, leaves, inner, ff, fattr)]
     if k == 'etod':
-        return ['etod', gen_shape(rng, d - 1, leaves, inner, ff, ffbox)]
+        return ['etod', gen_shape(rng, d - 1, leaves, inner, ff, fattr)]
     if k == 'deco':
-        return ['deco', gen_shape(rng, d - 1, leaves, inner, ff, ffbox)]
+        return ['deco', gen_shape(rng, d - 1, leaves, inner, ff, fattr)]
     if k == 'tagger':
         new = gen_tagset(rng, 6)
-        return ['tagger', new, [t for t in gen_tagset(rng, 6) if t not in new], gen_shape(rng, d - 1, leaves, inner, ff, ffbox)]
+        return ['tagger', new, [t for t in gen_tagset(rng, 6) if t not in new], gen_shape(rng, d - 1, leaves, inner, ff, fattr)]
     if k in ('tfr', 'e2s'):
         return [k, target()]
     return ['multi'] + [target() for _ in range(rng.choice([1, 2, 2, 3]))]
@@ -686,7 +685,7 @@ def gen_shape1(rng, d, leaves, inner, ff, ffbox):
 def shrink_shape(s):
     """smaller well-formed shapes"""
     for c in children(s):
-        yield c if c[0] != 'sink' or c[1] == 'ext' else ['etod', c]
+        yield c if c[0] not in ('sink', 'fsink') or c[1] == 'ext' else ['etod', c]
     k = s[0]
     if k == 'multi' and len(s) > 2:
         for i in range(1, len(s)):
@@ -700,12 +699,10 @@ def shrink_shape(s):
             yield s[:3] + [c]
         if s[1] or s[2]:
             yield ['tagger', [], [], s[3]]
-    if k == 'ffbox':
-        if s[3][0] == 'tagger':
-            yield s[:3] + [['deco', s[3][3]]]
-        for c in shrink_shape(s[3]):
-            if wf_shape(s[:3] + [c]):
-                yield s[:3] + [c]
+    if k == 'etod' and s[1][0] == 'fsink':
+        yield ['etod', ['sink', s[1][3]]]
+        if s[1][1]:
+            yield ['etod', ['fsink', False] + s[1][2:]]
     if k == 'multi':
         for i in range(1, len(s)):
             for c in shrink_shape(s[i]):
